@@ -20,7 +20,10 @@ RULE = ('zones: every distinct TZif file under /usr/share/zoneinfo without leap 
         'DST, same-month rules); points: every second in +-3 around every transition instant and its two '
         'wall-clock boundaries, +-2 h at 15 min steps around sampled transitions, rule transitions of the '
         'years after the last table transition up to 2100 and of 2500/10000, sparse random points; '
-        'each case line is one zone with a batch of points (a lookup per point)')
+        'each case line is one zone with a batch of points (a lookup per point); public route (TZ=:file, chrono::Local): lz.env on 240 zones, '
+        'lz.conv (From / FromStr / SystemTime conversions of DateTime<Local>) at 12 instants per zone, lz.asg (DateTime<Local> += / -= '
+        'TimeDelta and core Duration) from instants within +-|d| of table and rule transitions with d in {+-30 min, 1 h, 2 h, ...} so that both '
+        'directions cross the transition, far-away controls and a delta that leaves the date range')
 
 ZONEINFO = '/usr/share/zoneinfo'
 TS_LO, TS_HI = -8334601228800 + 4 * 86400, 8210266876799 - 4 * 86400
@@ -611,6 +614,26 @@ def ordered_cases(tier, rng):
         ws = [w for w in walls[:40] if zm.spaced(w)][:20]
         if ws:
             yield case_line('lz.env', data, zm.tagged(data), 1, ws)
+        # the conversions into / out of DateTime<Local> (From impls, FromStr, SystemTime) at instants
+        yield case_line('lz.conv', data, zm.tagged(data), ins[20:32] or ins[:12])
+        # DateTime<Local> += / -= across transitions (the zone must be resolved again at the new instant):
+        # starting instants within +-2 h of table and rule transitions, deltas that carry them across in both
+        # directions, far-away controls, one delta that leaves the date range
+        ts = [t for t, _ in zm.trans]
+        marks = ts[-2:] + ([ts[0]] if ts else []) + ([rng.choice(ts)] if ts else [])
+        if zm.rule and zm.rule[0] == 'A':
+            for y in (2100, rng.choice([2037, 2038, 2039, 2500])):
+                marks += [r for r, _, _ in zm.rule_events(y)]
+        marks = sorted(set(marks))
+        for d in (3600, 7200, -1800, rng.choice([1, 59, 900, 5400, 86400, -3600, -7200, 31536000])):
+            h = abs(d)
+            xs = []
+            for t in marks:
+                xs += [t - h - 1, t - h, t - h + 1, t - h // 2, t - 1, t, t + 1, t + h // 2, t + h - 1, t + h,
+                       t + rng.randint(-7200, 7200), t + 40 * 86400, t - 40 * 86400]
+            xs += [0, rng.randint(-10**9, 5 * 10**9)]
+            yield case_line('lz.asg', data, zm.tagged(data), d, clip(xs)[:60])
+        yield case_line('lz.asg', data, zm.tagged(data), rng.choice([10**13, -10**13, 8 * 10**12]), [0, TS_HI - 5, TS_LO + 5])
 
 
 def refine(cases, impl, model, verdicts, run_both):
